@@ -202,13 +202,18 @@ def gen_records(ctx, rng, quick):
                                 data = None
                             if data is not None:
                                 rec["em"] = {"pos": p_, "len": l_, "word": w_int}
-                                st.replace_status_block_segment(p_, data)
-                                blk = st.status_block
-                                rec["after"] = _word(blk, pos, L)
-                                rec["outside"] = (len(blk) == 1024 and blk[:pos] == base[:pos]
-                                                  and blk[pos + L:] == base[pos + L:])
-                                rec["rb"] = _canon_rb(acc, shape, acc.value)
-                                rec["others"] = sum(1 for t in others if st.accessors[t].raw_value != before_others[t])
+                                try:
+                                    # applying the device write and reading back are library operations too
+                                    st.replace_status_block_segment(p_, data)
+                                    blk = st.status_block
+                                    rec["after"] = _word(blk, pos, L)
+                                    rec["outside"] = (len(blk) == 1024 and blk[:pos] == base[:pos]
+                                                      and blk[pos + L:] == base[pos + L:])
+                                    rec["rb"] = _canon_rb(acc, shape, acc.value)
+                                    rec["others"] = sum(1 for t in others if st.accessors[t].raw_value != before_others[t])
+                                except Exception as e:  # noqa
+                                    rec["outcome"] = f"raised:apply:{type(e).__name__}"
+                                    rec.pop("em", None)
                         recs.append(rec)
                         meta.append((f"{m['name']}.{tag}", {"value": repr(value)}))
     loop.close()
